@@ -18,6 +18,7 @@ from mc.engine import Res, digest, viol
 from mc.model import Schema
 
 ID = "C11"
+CHUNK = 100
 RULE = ("states = (multiset of <=N respondents, insertion config incl. differences and both-"
         "dimension insertions); non-trivial = some cell has a variance > 0; distinct = distinct "
         "variance tensors per schema")
